@@ -10,6 +10,11 @@ HERE = os.path.dirname(os.path.dirname(os.path.abspath(__file__)))
 VENV_PY = "/venv/bin/python"
 
 PROPS: dict[str, dict[str, Any]] = {
+    "C08": {
+        "level": "proof",
+        "sidecars": ["contracts/c08.py"],
+        "native_n": {"quick": 400, "thorough": 20000},
+    },
     "C16": {
         "level": "proof",
         "sidecars": ["contracts/c16.py"],
